@@ -5,11 +5,19 @@ Predicates on Go alone: Unmarshal(Marshal v) == v, Marshal(Unmarshal(Marshal v))
 Correspondence: Go's bytes == the model's bytes; Go's decoder on the model's bytes == v;
 json.Marshal's text (parsed independently) == the model's to_json; Go's JSON round trip == the model's of_json(to_json v)."""
 import codec_common
+import dec_fir
 
 PID = "C01"
 
 
 def run(tier, seed, replay=None):
+    # Way 1 for decoding (checks/dec_fir.py, every run): generated_unmarshal.go of this run is translated into the decoder IR and
+    # the Coq kernel checks that it is exactly what the schema compiles to (dprogs_match, vm_compute)
+    with dec_fir.attached(PID, tier, seed, replay):
+        return _run(tier, seed, replay)
+
+
+def _run(tier, seed, replay=None):
     return codec_common.run(PID, tier, seed, replay, [
         "equality of values is modulo nil == empty slice/string (the decoder yields nil for count 0, JSON yields null); "
         "trees are built from / printed as Go values by reflection in harness/llrp/codec_test.go, driven by spec/llrp_layout.json",
